@@ -37,6 +37,10 @@ pub type Slot<T> = Rc<RefCell<Option<T>>>;
 pub const V3_CONNECT: &[u8] = b"\x10\x0d\x00\x04MQTT\x04\x02\x00\x3c\x00\x01c";
 /// v5 CONNECT, clean start, keep-alive 60, no properties, client id "c"
 pub const V5_CONNECT: &[u8] = b"\x10\x0e\x00\x04MQTT\x05\x02\x00\x3c\x00\x00\x01c";
+/// the same CONNECT announcing Maximum Packet Size = 4096 (property 0x27): the server's encoder then refuses
+/// every packet larger than that (`EncodeError::OverMaxPacketSize`)
+pub const V5_CONNECT_MAX_4096: &[u8] =
+    b"\x10\x13\x00\x04MQTT\x05\x02\x00\x3c\x05\x27\x00\x00\x10\x00\x00\x01c";
 
 /// Start a server task for `factory` on the server end of a fresh IoTest pair; returns the peer end.
 /// `cfg` carries MqttServiceConfig (max_send, max_receive, ...). The server future runs in a
@@ -87,6 +91,15 @@ pub async fn v5_server_with_sink(
     slot: Slot<v5::MqttSink>,
     cfg: MqttServiceConfig,
 ) -> IoTest {
+    v5_server_with_sink_connect(slot, cfg, V5_CONNECT).await
+}
+
+/// `v5_server_with_sink` with the CONNECT packet the peer sends given by the caller
+pub async fn v5_server_with_sink_connect(
+    slot: Slot<v5::MqttSink>,
+    cfg: MqttServiceConfig,
+    connect: &'static [u8],
+) -> IoTest {
     let srv = v5::MqttServer::new(move |h: v5::Handshake| {
         let slot = slot.clone();
         async move {
@@ -96,7 +109,7 @@ pub async fn v5_server_with_sink(
     })
     .publish(|p: v5::Publish| async move { Ok::<_, HErr>(p.ack()) });
     let peer = start_server(srv, shared_cfg("V5", cfg)).await;
-    peer.write(V5_CONNECT);
+    peer.write(connect);
     settle().await;
     let _connack = peer.read_any();
     peer
